@@ -1,12 +1,76 @@
-"""Per-property metadata used by the evidence writer (what is not decided, trusted base)."""
-A_ENGINE = "A-ENGINE: VC generator, prelude axioms and contract translation are trusted (pyvc; self-tests in thorough tier)"
+"""Per-property metadata: what is claimed (MANIFEST via tools/gen_manifest.py), what is not decided,
+trusted base (evidence writer)."""
+A_ENGINE = "A-ENGINE: VC generator, prelude axioms and contract translation are trusted (pyvc)"
 A_PYSEM = "A-PYSEM: Python semantics as encoded in DESIGN 2.3 (ints mathematical, listed exception classes only)"
-COMMON = [A_ENGINE, A_PYSEM, "z3 5.1 (E-matching, no MBQI) / cvc5 1.0.3 as back ends"]
+COMMON = [A_ENGINE, A_PYSEM, "z3 5.1 (E-matching, no MBQI) / cvc5 1.0.3 as back ends",
+          "struct.pack/unpack, bytes slicing and int.to_bytes/from_bytes are modelled by prelude axioms, not verified"]
+
+NOTES = ("Contract-based deductive verification (pyvc). Every claimed check is a set of function contracts on the "
+         "real functions of /repo, re-extracted from the working tree on every run; see DESIGN.md section 0 for the "
+         "decision table and section 9 for what was actually built versus planned. Exit codes: 0 held, 1 VIOLATION, "
+         "2 UNDECIDED (a unit left the supported subset or an obligation is neither discharged nor refuted), "
+         "3 checker defect.")
 
 PROPERTIES = {
+    "C05": {
+        "claim": "Proof, for the RTP/RTCP wire parsers under contract (unpack_remb_fci, unpack_header_extensions, "
+                 "unpack_packets_lost, RtcpReceiverInfo.parse, RtcpSenderInfo.parse, is_rtcp), that for every byte "
+                 "string they return or raise ValueError only (no struct.error/IndexError) and every loop terminates "
+                 "(decreases clauses). Reduced: the dispatch layer, SCTP, codec payload parsers are not under contract.",
+        "note": "Only the listed parser functions are decided; the rest of the receive path (RtpPacket.parse, "
+                "RtcpPacket.parse, SCTP chunk parsers, h264/vpx descriptors, transports) is outside this check. "
+                "Trusted: pyvc engine and prelude axioms for struct/bytes.",
+        "design_ref": "DESIGN.md 4.5, 9",
+        "trusted_base": COMMON,
+        "not_decided": ["RtpPacket.parse / RtcpPacket.parse dispatch", "SCTP chunk parsing", "codec payload descriptors",
+                        "memory/time proportionality", "transport stays up afterwards"],
+    },
+    "C07": {
+        "claim": "Proof of the fixed-layout RTCP building blocks: RtcpReceiverInfo and RtcpSenderInfo parse(bytes(x)) == x "
+                 "for all in-range field values, 24-bit signed loss clamp/pack/unpack round trip and saturation, REMB "
+                 "FCI encoder (mantissa = bitrate >> exponent with minimal exponent: never rounds up, relative error "
+                 "< 2^-17) and decoder, pack_rtcp_packet header layout, header-extension pack/unpack shape facts. "
+                 "Reduced: RtpPacket/compound RtcpPacket serialise/parse, NACK and RTX are not under contract.",
+        "note": "Round trip is proved as composition lemmas (harnesses) over the callee contracts; wire-range "
+                "preconditions (fields fit their widths) are stated in requires. Whole-packet round trips are not decided.",
+        "design_ref": "DESIGN.md 4.7, 9",
+        "trusted_base": COMMON,
+        "not_decided": ["RtpPacket.serialize/parse round trip", "RtcpPacket compound round trip", "NACK set equality (F-11)",
+                        "RTX wrap/unwrap", "HeaderExtensionsMap.get/set (F-4, F-10)"],
+    },
+    "C15": {
+        "claim": "Proof that every integer bitrate in [0, 2^64) with up to 255 32-bit SSRCs is encodable by pack_remb_fci "
+                 "and decodes to the listed SSRCs exactly, with mantissa*2^exp <= bitrate. Reduced: rate.py (estimator, "
+                 "AIMD bounds, rate counter window) is float code that the engine does not model and is not decided.",
+        "note": "Only the 'REMB can encode it' conjunct of C15 is decided. The estimator bounds (1.5x+10k, 0.85x) and "
+                "no-raise over arrival histories are NOT decided by this check.",
+        "design_ref": "DESIGN.md 4.15, 9",
+        "trusted_base": COMMON,
+        "not_decided": ["rate.py: RemoteBitrateEstimator, AimdRateControl (F-18), OveruseDetector, RateCounter"],
+    },
     "C17": {
+        "claim": "Proof that uint16/uint32 add, gt, gte implement RFC 1982 serial arithmetic, and lemmas over those "
+                 "contracts: irreflexive, antisymmetric, total except at distance exactly half, consistent with modular "
+                 "addition (a+d ahead of a for 0<d<half) and translation invariant (gt(a,b) == gt(a+k,b+k)) for all values.",
+        "note": "The schedule-level statement ('delivers exactly the same under the same network schedule') is not "
+                "decided; only the arithmetic it rests on.",
+        "design_ref": "DESIGN.md 4.17",
         "trusted_base": COMMON,
         "assumptions": ["A-WINDOW: live values within half the number space of the tracked point"],
         "not_decided": ["the schedule-level statement 'delivers exactly the same under the same network schedule'"],
     },
+    "C18": {
+        "claim": "Proof that the receiver-report wire layer never fails for in-range figures: clamp_packets_lost saturates "
+                 "to the signed 24-bit range, pack_packets_lost/unpack_packets_lost are inverse on it, and "
+                 "RtcpReceiverInfo.__bytes__ produces the 24-byte RFC 3550 block for all field values within their widths.",
+        "note": "Reduced to the serialisation layer plus StreamStatistics units listed in the evidence file.",
+        "design_ref": "DESIGN.md 4.18, 9",
+        "trusted_base": COMMON,
+        "not_decided": ["report construction loop in RTCRtpReceiver._run_rtcp (F-20)"],
+    },
+}
+
+NOT_APPLICABLE = {
+    "C09": "SDP parse/serialise is string/regex code; no contract within reach of the installed solvers decides the round trip (DESIGN 4.9)",
+    "C19": "termination and absence of leftover tasks/threads across coroutine interleavings is not expressible as a function contract (DESIGN 4.19)",
 }
